@@ -8,7 +8,7 @@ from ..calls import iter_functions
 from ..engine import HOLDS, UNDECIDED, VIOLATED, Check
 from ..loader import AnalysisError, parent
 from ..recon import _own_nodes
-from ..rulelib import (flows_from, _typestate, calls_named, carried_with_entry, check_layout, conds_sym, field_map, fld, inst_attr,
+from ..rulelib import (func_outcomes, eval_conds, split_alternatives, flows_from, _typestate, calls_named, carried_with_entry, check_layout, conds_sym, field_map, fld, inst_attr,
                        insts_in_func, loop_carried, loops_of, reach_table, spec_expr)
 from ..spec.layouts import LAYOUTS, OWNERS
 
@@ -358,17 +358,48 @@ def vmdk(chk: Check):
     parts = [n for n in ast.walk(loop) if isinstance(n, ast.Call) and isinstance(n.func, ast.Attribute) and n.func.attr == "partition"]
     okp = bool(parts) and parts[0].args and isinstance(parts[0].args[0], ast.Constant) and parts[0].args[0].value == "="
     chk.decide(okp, "K-PROV", "vmdk:split-at-first-equals", parts[0] if parts else loop, "key and value are split at the first '='")
-    # routing
+    # routing: decided by evaluating, for a setting name with and without the ddb. prefix, which dictionary the store goes to
+    # (the target may be chosen by a conditional expression or by an if / else around two stores)
     stores = [n for n in ast.walk(loop) if isinstance(n, ast.Assign) and isinstance(n.targets[0], ast.Subscript)]
-    routes = {}
+    # the two dictionaries are told apart by the variables that hold them (both start as the same empty display): the first and
+    # the third argument of the DiskDescriptor that is returned
+    role = {}
+    for n in _own_nodes(pctx.func):
+        if isinstance(n, ast.Return) and isinstance(n.value, ast.Call) and len(n.value.args) >= 3 and all(isinstance(a, ast.Name) for a in (n.value.args[0], n.value.args[2])):
+            role = {n.value.args[0].id: "attr", n.value.args[2].id: "ddb"}
+
+    def target_names(e, node, depth=3):
+        """[(variable name, [(condition term, polarity)])] a store target expression can denote."""
+        if isinstance(e, ast.IfExp):
+            c = R.expr(pctx, e.test, node)
+            return [(nm, [(c, True)] + cs) for nm, cs in target_names(e.body, node, depth)] + \
+                   [(nm, [(c, False)] + cs) for nm, cs in target_names(e.orelse, node, depth)]
+        if isinstance(e, ast.Name):
+            if e.id in role or depth == 0:
+                return [(e.id, [])]
+            defs = list(pctx.cfg.rd_in.get(node, {}).get(e.id, ()))
+            if len(defs) == 1 and defs[0].value is not None and defs[0].kind == "assign":
+                return target_names(defs[0].value, defs[0].node, depth - 1)
+            return [(e.id, [])]
+        return [("?", [])]
+
+    sites = []
     setting = None
     for st in stores:
-        conds = conds_sym(chk, pctx, st)
-        for c, pol in conds:
-            if c[0] == "call" and c[1] == ".startswith" and c[2][1] == S.C("ddb."):
-                routes[ast.unparse(st.targets[0].value)] = pol
-                setting = c[2][0]
-    chk.decide(sorted(routes.values()) == [False, True], "K-PROV", "vmdk:ddb-routing", loop,
+        node = pctx.cfg.node_of[st]
+        key_t = R.expr(pctx, st.targets[0].slice, node)
+        for nm, extra in target_names(st.targets[0].value, node):
+            sites.append((nm, conds_sym(chk, pctx, st) + extra))
+        if setting is None:
+            setting = key_t
+    routes = {}
+    if setting is not None and role:
+        for name in ("ddb.adapterType", "ddb.virtualHWVersion", "CID", "parentFileNameHint", "createType", "xddb.foo"):
+            val = S.Valuation(1, override={setting: name})
+            hit = [role.get(nm, "?") for nm, conds in sites if eval_conds([(c, p_) for c, p_ in conds if S.contains(c, lambda x: x == setting)], val)]
+            routes[name] = hit
+    want_routes = {n: ["ddb" if n.startswith("ddb.") else "attr"] for n in routes}
+    chk.decide(bool(routes) and routes == want_routes, "K-PROV", "vmdk:ddb-routing", loop,
                "settings starting with ddb. go to the disk database, all others to the descriptor attributes", found=str(routes))
     for st in stores:
         key = R.expr(pctx, st.targets[0].slice, pctx.cfg.node_of[st])
